@@ -11,7 +11,7 @@ from framework import Unit
 IMPORTS = ('From ArmV Require Import Spec.Pseudocode Spec.Arch.\n'
            'From Gen Require Import enums exec.')
 SPEC_IMPORTS = 'From ArmV Require Import Spec.Pseudocode Spec.Arch Spec.MachineView Spec.DPSem.'
-PROPS_FILES = ['C01', 'C01_0', 'C01_1', 'C01_2', 'C01_3', 'C01misc']
+PROPS_FILES = ['C01', 'C01_0', 'C01_1', 'C01_2', 'C01_3', 'C01misc', 'C01step']
 TABLE = json.load(open(os.path.join(C.VERIF, 'tools', 'spec', 'dp_table.json')))['classes']
 CORN = [0, 1, 0x7FFFFFFF, 0x80000000, 0xFFFFFFFF, 0xFFFFFFFE, 0x80000001, 0x12345678, 0xC0000000]
 
@@ -190,4 +190,9 @@ def units():
     us.append(Unit('adr_movt', ['C01_Adr', 'C01_Movt'], ['Proofs/MiscProofs.v'],
                    ['opcodes.abstract_opcodes.adr.Adr.execute', 'opcodes.abstract_opcodes.movt.Movt.execute'], misc_cases, IMPORTS,
                    SPEC_IMPORTS + '\nFrom ArmV Require Import Spec.MachineView Spec.Misc.'))
+    us.append(Unit('whole_step', ['C01_dp_imm_step', 'C01_add_imm_a1_step', 'C01_add_imm_t1_step', 'C01_add_imm_a1_step_example',
+                                  'C01_add_imm_t1_step_example'],
+                   ['Proofs/StepProofs.v', 'Proofs/StepDP.v', 'Proofs/StepInstances.v', 'Proofs/StepInstancesExample.v'],
+                   ['arm_v6.ArmV6.emulate_cycle', 'arm_v6.ArmV6.execute_instruction', 'arm_v6.ArmV6.increment_pc_if_needed'], None,
+                   IMPORTS, SPEC_IMPORTS))
     return us
